@@ -4,7 +4,7 @@ the trace of a real execution (core_run.Runner.trace).  Each monitor yields
 
 from __future__ import annotations
 
-PLAYBACK_OPS = {"play", "pause", "resume", "stop", "next", "previous", "seek", "deliver", "atf", "tick",
+PLAYBACK_OPS = {"play", "pause", "resume", "stop", "next", "previous", "seek", "deliver", "atf", "tick", "buffering",
                 "getnext", "geteot", "getprev", "index", "filter", "slice", "setmode", "save",
                 "setvolume", "setmute"}
 DOC_ERRORS = {
@@ -163,6 +163,9 @@ def c02(case, trace, settled=False):
                 if str(kw["old_state"]) != state:
                     yield ("state_chain", {"call": k}, "playback_state_changed chain has a gap", i)
                 state = str(kw["new_state"])
+                if kw.get("_seen_state") is not None and kw["_seen_state"] != state:
+                    yield ("state_at_event", {"call": k},
+                           f"while playback_state_changed(new_state={state}) was sent the core reported {kw['_seen_state']}", i)
                 if state not in ("stopped", "playing", "paused"):
                     yield ("state_domain", {"call": k}, "state outside stopped/playing/paused", i)
             elif name == "track_playback_paused" and state != "paused":
@@ -171,6 +174,9 @@ def c02(case, trace, settled=False):
                 yield ("resumed_in_state", {"call": k}, "track_playback_resumed emitted while not playing", i)
             elif name == "track_playback_started":
                 started += 1
+                if "_seen_current" in kw and kw["_seen_current"] != kw["tl_track"].tlid:
+                    yield ("started_at_event", {"call": k},
+                           f"while track_playback_started({kw['tl_track'].tlid}) was sent the core reported {kw['_seen_current']} as current", i)
         if t["state"] != state:
             yield ("state_chain_last", {"call": k}, "reported state differs from last announced state", i)
         if hist_len is not None and k not in ("load", "sethistory"):
@@ -232,7 +238,7 @@ def c03(case, trace, settled=False):
         k = t["op"][0]
         before = _prev_tl(trace, i)
         consume_before = trace[i - 1]["modes"][0] if i > 0 else False
-        if k in ("play", "pause", "resume", "stop", "next", "previous", "seek", "deliver", "atf", "tick") \
+        if k in ("play", "pause", "resume", "stop", "next", "previous", "seek", "deliver", "atf", "tick", "buffering") \
                 and not consume_before and not t["modes"][0] and before != t["tl"]:
             yield ("no_consume_frame", {"call": k}, "playback operation altered the tracklist with consume off", i)
         for hit in _retry_same_track(case, trace, i):
